@@ -23,12 +23,17 @@ import (
 	"os"
 	"os/exec"
 	"path/filepath"
+	"runtime/debug"
 	"strings"
+	"sync/atomic"
+	"time"
 
 	"github.com/lindb/common/pkg/logger"
 	"go.uber.org/zap/zapcore"
 
 	"github.com/lindb/lindb/internal/vevid"
+	"github.com/lindb/lindb/kv"
+	"github.com/lindb/lindb/tsdb/tblstore/metricsdata"
 )
 
 const rule = "every history of the enumeration families (complete cross products of the shape alphabets, see bounds) is executed on a fresh real store; the oracle is evaluated after every step. non-trivial = at least one merge compaction processed a (metric, series, field, slot) cell contributed by >= 2 files; distinct = distinct history"
@@ -156,7 +161,40 @@ type childSpec struct {
 	Cases   []*Case `json:"cases"`
 	Start   int     `json:"start"`
 	Out     string  `json:"out"`
+	Crash   string  `json:"crash"`
 	Scratch string  `json:"scratch"`
+}
+
+// crashNote is written by the child when lindb panics inside Merger.Merge on the compaction goroutine, before the
+// panic continues (a panic unwinding that goroutine releases the family's wait group in a deferred call, so the
+// main goroutine could otherwise finish the case - and later ones - before the runtime kills the process).
+type crashNote struct {
+	Case  int    `json:"case"`
+	Panic string `json:"panic"`
+	Stack string `json:"stack"`
+}
+
+var (
+	childCase    atomic.Int64 // index of the case being executed by this child
+	childCrash   string       // file for the crash note
+	mergePanicked atomic.Bool
+)
+
+const wrappedMerger = "c03_marking_MetricDataMerger"
+
+// markingMerger delegates to the real metric data merger; a panic passing through Merge is noted and re-raised unchanged.
+type markingMerger struct{ kv.Merger }
+
+func (m *markingMerger) Merge(key uint32, values [][]byte) error {
+	defer func() {
+		if r := recover(); r != nil {
+			js, _ := json.Marshal(crashNote{Case: int(childCase.Load()), Panic: fmt.Sprint(r), Stack: string(debug.Stack())})
+			_ = os.WriteFile(childCrash, js, 0o644)
+			mergePanicked.Store(true)
+			panic(r)
+		}
+	}()
+	return m.Merger.Merge(key, values)
 }
 
 func childMain(specPath string) {
@@ -175,7 +213,17 @@ func childMain(specPath string) {
 		fmt.Fprintln(os.Stderr, "HARNESS-ERROR: child out:", err)
 		os.Exit(3)
 	}
+	childCrash = spec.Crash
+	kv.RegisterMerger(wrappedMerger, func(fl kv.Flusher) (kv.Merger, error) {
+		m, err := metricsdata.NewMerger(fl)
+		if err != nil {
+			return nil, err
+		}
+		return &markingMerger{m}, nil
+	})
+	mergerType = wrappedMerger
 	for i := spec.Start; i < len(spec.Cases); i++ {
+		childCase.Store(int64(i))
 		r := runCase(spec.Cases[i], spec.Scratch)
 		js, _ := json.Marshal(r)
 		// one write per finished case: a later crash cannot lose it
@@ -187,14 +235,38 @@ func childMain(specPath string) {
 	_ = out.Close()
 }
 
-// crashSite extracts the panic head line and the first lindb frame of the crashing goroutine.
-func crashSite(stderr string) (head, site, trace string) {
+// afterCompact is called by runCase behind every compaction: if lindb panicked on the compaction goroutine the
+// process is about to be killed by the runtime; do not run ahead of it.
+func afterCompact() {
+	if mergePanicked.Load() {
+		time.Sleep(60 * time.Second)
+		// still alive: somebody recovered the panic; go on
+		mergePanicked.Store(false)
+	}
+}
+
+// lindbFrame returns the first lindb (non-harness) function of a stack trace.
+func lindbFrame(trace string) string {
+	for _, ln := range strings.Split(trace, "\n") {
+		if strings.HasPrefix(ln, "github.com/lindb/lindb/") && !strings.Contains(ln, "/verif_h/") && !strings.Contains(ln, "/internal/v") {
+			site := strings.TrimPrefix(ln, "github.com/lindb/lindb/")
+			if p := strings.LastIndex(site, "("); p > 0 {
+				site = site[:p]
+			}
+			return site
+		}
+	}
+	return ""
+}
+
+// crashSite extracts the panic head line and the crashing goroutine from the stderr of a dead process.
+func crashSite(stderr string) (head, trace string) {
 	i := strings.Index(stderr, "panic:")
 	if j := strings.Index(stderr, "fatal error:"); i < 0 || (j >= 0 && j < i) {
 		i = j
 	}
 	if i < 0 {
-		return "", "", ""
+		return "", ""
 	}
 	tail := stderr[i:]
 	head = strings.SplitN(tail, "\n", 2)[0]
@@ -205,19 +277,14 @@ func crashSite(stderr string) (head, site, trace string) {
 			first = first[:e]
 		}
 	}
-	for _, ln := range strings.Split(first, "\n") {
-		if strings.HasPrefix(ln, "github.com/lindb/lindb/") {
-			site = strings.TrimPrefix(ln, "github.com/lindb/lindb/")
-			if p := strings.LastIndex(site, "("); p > 0 {
-				site = site[:p]
-			}
-			break
-		}
+	return head, first
+}
+
+func clip(s string, n int) string {
+	if len(s) > n {
+		return s[:n]
 	}
-	if len(first) > 2500 {
-		first = first[:2500]
-	}
-	return head, site, first
+	return s
 }
 
 // runBatch runs the cases in child processes; a child that dies is restarted behind the case that killed it.
@@ -228,14 +295,15 @@ func runBatch(rep *vevid.Report, f *vevid.Flags, cases []*Case) {
 		vevid.Fatal("scratch: %v", err)
 	}
 	defer os.RemoveAll(dir)
-	specPath, outPath := filepath.Join(dir, "spec.json"), filepath.Join(dir, "out.jsonl")
+	specPath, outPath, crashPath := filepath.Join(dir, "spec.json"), filepath.Join(dir, "out.jsonl"), filepath.Join(dir, "crash.json")
 	start := 0
 	for start < len(cases) {
-		js, _ := json.Marshal(childSpec{Cases: cases, Start: start, Out: outPath, Scratch: dir})
+		js, _ := json.Marshal(childSpec{Cases: cases, Start: start, Out: outPath, Crash: crashPath, Scratch: dir})
 		if err := os.WriteFile(specPath, js, 0o644); err != nil {
 			vevid.Fatal("spec: %v", err)
 		}
 		_ = os.Remove(outPath)
+		_ = os.Remove(crashPath)
 		cmd := exec.Command(os.Args[0], "-child", specPath)
 		var stderr bytes.Buffer
 		cmd.Stdout, cmd.Stderr = &stderr, &stderr
@@ -266,20 +334,34 @@ func runBatch(rep *vevid.Report, f *vevid.Flags, cases []*Case) {
 			return
 		}
 		if ee, ok := runErr.(*exec.ExitError); !ok || ee.ExitCode() == 3 {
-			vevid.Fatal("child process: %v\n%s", runErr, tailOf(stderr.String(), 3000))
+			vevid.Fatal("child process: %v: %s", runErr, clip(strings.ReplaceAll(stderr.String(), "panic:", "panic;"), 3000))
 		}
-		if start+n >= len(cases) {
-			vevid.Fatal("child died after its last case: %v\n%s", runErr, tailOf(stderr.String(), 3000))
+		// the process died; which case killed it?
+		killer := start + n
+		head, trace := crashSite(stderr.String())
+		site := lindbFrame(trace)
+		if b, err := os.ReadFile(crashPath); err == nil {
+			var note crashNote
+			if json.Unmarshal(b, &note) == nil {
+				if note.Case != killer {
+					vevid.Fatal("crash note names case %d, but %d results were written by the child started at %d", note.Case, n, start)
+				}
+				head = "panic: " + note.Panic
+				// the recorded stack starts in the deferred marker; the frames below the runtime's panic frames are lindb's
+				if i := strings.Index(note.Stack, "panic("); i >= 0 {
+					note.Stack = note.Stack[i:]
+				}
+				trace = note.Stack
+				site = lindbFrame(trace)
+			}
+		} else if head == "" || strings.Contains(trace, "/verif_h/") || strings.Contains("\n"+trace, "\nmain.") {
+			// no lindb panic: the harness itself is broken ("panic;" keeps the driver from reading it as a lindb crash)
+			vevid.Fatal("child died (%v) without a lindb panic: %s", runErr, clip(strings.ReplaceAll(stderr.String(), "panic:", "panic;"), 4000))
 		}
-		// the process died while executing cases[start+n]
-		c := cases[start+n]
-		head, site, trace := crashSite(stderr.String())
-		if head == "" {
-			vevid.Fatal("child died without a panic trace (%v):\n%s", runErr, tailOf(stderr.String(), 3000))
+		if killer >= len(cases) {
+			vevid.Fatal("child died after its last case (%v): %s", runErr, clip(strings.ReplaceAll(stderr.String(), "panic:", "panic;"), 3000))
 		}
-		if strings.Contains(trace, "/verif_h/") || strings.Contains("\n"+trace, "\nmain.") {
-			vevid.Fatal("child died in harness code:\n%s", tailOf(stderr.String(), 4000))
-		}
+		c := cases[killer]
 		rep.Evaluations++
 		rep.Count("cases_"+c.Family, 1)
 		rep.Count("cases_process_killed", 1)
@@ -289,16 +371,9 @@ func runBatch(rep *vevid.Report, f *vevid.Flags, cases []*Case) {
 			Scenario: c.Class() + " after=compact",
 			Site:     site,
 			Detail: fmt.Sprintf("the process was killed while compacting (a goroutine started by lindb panicked): %s\n  history: %s\n%s",
-				head, c.String(), trace),
+				head, c.String(), clip(trace, 2500)),
 			Replay: *c,
 		})
-		start += n + 1
+		start = killer + 1
 	}
-}
-
-func tailOf(s string, n int) string {
-	if len(s) > n {
-		return s[len(s)-n:]
-	}
-	return s
 }
